@@ -48,7 +48,16 @@ def immutable_type(tp, seen):
             b = tp.__bound__
             parts = typing.get_args(b) if typing.get_origin(b) in (types.UnionType, typing.Union) else (b if isinstance(b, tuple) else (b,))
             return all(isinstance(c, type) and issubclass(c, IMMUTABLE_LEAVES) for c in parts)
-        return issubclass(tp, IMMUTABLE_LEAVES)
+        if not issubclass(tp, IMMUTABLE_LEAVES):
+            return False
+        # a leaf type derived from a builtin value type keeps that type's equality and hash (a subclass that redefines
+        # __eq__ or __hash__ can make equal field values hash differently, or unequal ones compare equal)
+        for c in tp.__mro__:
+            if c in IMMUTABLE_LEAVES or c is object or c.__module__ in ("builtins", "datetime", "uuid", "enum", "abc", "typing"):
+                continue
+            if "__eq__" in vars(c) or "__hash__" in vars(c) or "__ne__" in vars(c):
+                return False
+        return True
     return False
 
 
